@@ -186,17 +186,20 @@ structure IndexInv (s : State) : Prop where
   rbe_sound : ∀ e r, s.rtByEntity.get (e, r) = some () → ∃ rt, s.runtimes.get r = some rt ∧ rt.entity = e
   rbe_compl : ∀ r rt, s.runtimes.get r = some rt → s.rtByEntity.get (rt.entity, r) = some ()
 
-/-- The claim `(a, c)` is implied by the registered entities, nodes and runtimes. -/
-def Implied (s : State) (a : Addr) : Claim → Prop
-  | .entity => ∃ e ws, a = .ent e ∧ s.entities.get e = some ws
-  | .node id => ∃ n, s.nodes.get id = some n ∧ a = .ent n.entity
-  | .runtime r => ∃ rt, s.runtimes.get r = some rt ∧ rt.stakingAddr = some a
+/-- The claim `c` on account `a` with threshold list `ths` is implied by the registered entities, nodes
+and runtimes: the entity claim of a registered entity, the node claim of a registered node on its
+entity's account with the thresholds of its roles and runtimes, the runtime claim of a registered
+(active or suspended) runtime on its staking address with the threshold of its kind. -/
+def Implied (s : State) (a : Addr) (ths : List Thr) : Claim → Prop
+  | .entity => ∃ e ws, a = .ent e ∧ s.entities.get e = some ws ∧ ths = [Thr.entity]
+  | .node id => ∃ n, s.nodes.get id = some n ∧ a = .ent n.entity ∧ ths = nodeThr n
+  | .runtime r => ∃ rt, s.runtimes.get r = some rt ∧ rt.stakingAddr = some a ∧ ths = rtThr rt
 
 /-- The full invariant of C17. -/
 structure Inv (s : State) : Prop extends IndexInv s where
-  cl_sound : ∀ a c, s.claims.get (a, c) = some () → Implied s a c
-  cl_compl : ∀ a c, Implied s a c → s.claims.get (a, c) = some ()
-  st_nodes : ∀ id, (∃ st, s.status.get id = some st) ↔ (∃ n, s.nodes.get id = some n)
+  cl_sound : ∀ a c ths, s.claims.get (a, c) = some ths → Implied s a ths c
+  cl_compl : ∀ a c ths, Implied s a ths c → s.claims.get (a, c) = some ths
+  st_nodes : ∀ id n, s.nodes.get id = some n → ∃ st, s.status.get id = some st
   nodes_nodup : (Map.keys s.nodes).Nodup
 
 /-- What descriptor verification and the update rules establish about an accepted node. -/
